@@ -102,6 +102,26 @@ ReaderResult(sizes, e) ==
   LET k == WholeFrames(sizes, 1, e) IN
   [delivered |-> k, final |-> IF SumTo(sizes, k) = e THEN "eof" ELSE "err"]
 
+(* Readers that decode the DNS header (Conn.ReadMsgHeader, Conn.ReadMsg).  A    *)
+(* frame whose body is shorter than the h octets of a header (h = 12) is not a *)
+(* message: such a reader reports an error for it.  The FRAMING is untouched   *)
+(* by that: the frame was delimited by its length like any other, its octets   *)
+(* are consumed, and the next read starts at the next length prefix.  Whether  *)
+(* the caller may go on reading after that error is not said: the reader may   *)
+(* carry on (what it hands out next is the next whole frame) or refuse every   *)
+(* later read                                                       \* AMBIG  *)
+(* -- but it never hands out octets that are not the body of one whole frame.  *)
+(* Closed form: indices (into the frames on the wire) of the messages handed   *)
+(* out by a reader that carries on, and by one that gives up at the first runt.*)
+HdrReader(sizes, e, h) ==
+  LET k == WholeFrames(sizes, 1, e)
+      idx == SelectSeq([i \in 1..k |-> i], LAMBDA i : sizes[i] >= h)
+      runts == { i \in 1..k : sizes[i] < h }
+      first == IF runts = {} THEN k + 1 ELSE CHOOSE i \in runts : \A j \in runts : i <= j IN
+  [carryon |-> idx, stop |-> SelectSeq(idx, LAMBDA i : i < first)]
+\* the view such a reader has of the messages a state's reader has been given
+HdrView(s, h) == SelectSeq(s.out, LAMBDA b : Len(b) >= h)
+
 \* early end => error, never a mangled or short message; refused messages never travel
 Sound(s) ==
   /\ Intact(s)
